@@ -39,8 +39,8 @@ type OptSpec struct {
 // RawURL is used for hand-built *url.URL values that url.Parse would never produce.
 type RawURL struct {
 	Scheme, Opaque, Host, Path, RawPath, RawQuery, Fragment string
-	User                                                     string
-	ForceQuery                                               bool
+	User                                                    string
+	ForceQuery                                              bool
 }
 
 func (o OptSpec) Build() *distiller.Options {
